@@ -467,7 +467,12 @@ fn field_op<F: Field>(op: &str, a: &[Arg]) -> Vec<Arg> {
             assert!(r == r2, "harness: sqrt and sqrt_in_place differ");
             opt_out(r)
         },
-        "legendre" => ok(vec![vec![from_i64(leg(elem::<F>(&a[4]).legendre()))]]),
+        "legendre" => {
+            // the symbol and the three predicates of LegendreSymbol (they must partition the cases)
+            let s1 = elem::<F>(&a[4]).legendre();
+            let (z, qr, qnr) = (s1.is_zero(), s1.is_qr(), s1.is_qnr());
+            ok(vec![vec![from_i64(leg(s1)), from_u64(z as u64), from_u64(qr as u64), from_u64(qnr as u64)]])
+        },
         _ => unsupported(),
     }
 }
